@@ -56,6 +56,7 @@ class C03(HistoryProperty):
 
     def gen_case(self, rng, tier):
         cfg = gen.swarm_cfg(rng, on=("dsclass", "namespace", "fapp"))
+        cfg["env_refs"] = rng.random() < 0.4  # Template texts referring to the process environment
         cfg["namespace_keys"] = True
         cfg["user_evaluatables"] = rng.random() < 0.4  # user-defined Evaluatable subclasses in the place of plain Options
         cfg["labrea_keys"] = rng.random() < 0.4  # dictionaries that carry the reserved LABREA section (logging / effects switches)
